@@ -152,3 +152,8 @@ def replay(case, ctx):
         run_stub(ctx, case)
     else:
         run_real(ctx, case["list"], case["options"])
+
+
+# coverage-guided tier (vlib/fuzz.py): selection / exclusion / aggregation with the per-country run stubbed out
+FUZZ_IMPORTS = ["src.scenarios.run_model_no_trade"]
+FUZZ_TARGETS = {"stub": (lambda ctx: (selection_case(), lambda c: run_stub(ctx, c)), 0, 4000, 2)}
